@@ -33,6 +33,11 @@ var c05Spellings = map[string]*vSpelling{
 	"unicode":   {tag: map[string]string{"t1": "größe", "t2": "日本 語"}, sep: []string{" ", "   "}},
 	"punct":     {tag: map[string]string{"t1": "k=v;x", "t2": "'q'"}},
 	"duptags":   {dup: true},
+	// redirect routes whose destination mentions the request right after the host (documented form host$path)
+	"redirdst": {optAll: true, opt: map[string]string{"": "redirect=301", "strip=/x": "redirect=302 strip=/x"},
+		dst: map[string]string{"http://u1:80/": "http://u1.test$path", "http://u2:80/": "https://u2.test$path", "http://u1:80/?v=2": "http://u1.test/$path", "http://x@u1:80/": "http://$host$path"}},
+	// the custom backend's JSON may carry "tags": [] - an empty list is no tag selection
+	"emptytags": {emptyTags: true},
 	"opteq":     {opt: map[string]string{"strip=/x": "strip=/v=1 prepend=/p=q= host=dst flag"}, sep: []string{" ", "\t"}},
 }
 
@@ -137,7 +142,7 @@ func TestVerifC05(t *testing.T) {
 	var wg sync.WaitGroup
 	var sampleMu sync.Mutex
 	var samples []string
-	spNames := []string{"spaces", "backslash", "unicode", "punct", "opteq", "duptags"}
+	spNames := []string{"spaces", "backslash", "unicode", "punct", "opteq", "duptags", "redirdst"}
 	for w := 0; w < runtime.NumCPU(); w++ {
 		wg.Add(1)
 		go func() {
@@ -157,6 +162,9 @@ func TestVerifC05(t *testing.T) {
 					vs = []variant{{c.Spelling, c.Path}}
 				} else if (j.n+seed)%variantEvery == 0 {
 					vs = append(vs, variant{"plain", "defs"}, variant{spNames[int((j.n/variantEvery+seed)%int64(len(spNames)))], "text"})
+					if (j.n/variantEvery+seed)%3 == 0 {
+						vs = append(vs, variant{"emptytags", "defs"})
+					}
 				}
 				for _, v := range vs {
 					if _, ok := c05Spellings[v.sp]; !ok {
